@@ -174,7 +174,7 @@ where
     publish_recv_max: Option<u16>,
     // Maximum number of concurrent PUBLISH packets for sending
     // Current count of PUBLISH packets being sent
-    publish_send_count: u16,
+    publish_send_count: u32,
 
     // Set of received PUBLISH packets (for flow control)
     publish_recv: HashSet<PacketIdType>,
@@ -878,7 +878,7 @@ where
     pub fn get_receive_maximum_vacancy_for_send(&self) -> Option<u16> {
         // If publish_recv_max is set, return the remaining capacity
         self.publish_send_max
-            .map(|max| max.saturating_sub(self.publish_send_count))
+            .map(|max| (max as u32).saturating_sub(self.publish_send_count) as u16)
     }
 
     /// Enable or disable offline publishing
@@ -1670,7 +1670,7 @@ where
         // table is touched: a refused packet must not register an alias the peer never sees
         if packet.qos() == Qos::AtLeastOnce || packet.qos() == Qos::ExactlyOnce {
             if let Some(max) = self.publish_send_max {
-                if self.publish_send_count >= max {
+                if self.publish_send_count >= max as u32 {
                     events.push(GenericEvent::NotifyError(MqttError::ReceiveMaximumExceeded));
                     if let Some(packet_id) = packet_id_opt {
                         if self.pid_man.is_used_id(packet_id) {
